@@ -272,12 +272,19 @@ pub fn mbcs(s: &str, codepage: u16) -> Vec<u8> {
         .collect()
 }
 
+const CP1252_HIGH: [u16; 32] = [
+    0x20AC, 0x0081, 0x201A, 0x0192, 0x201E, 0x2026, 0x2020, 0x2021, 0x02C6, 0x2030, 0x0160, 0x2039, 0x0152, 0x008D, 0x017D, 0x008F, 0x0090, 0x2018, 0x2019, 0x201C, 0x201D, 0x2022, 0x2013, 0x2014, 0x02DC, 0x2122, 0x0161,
+    0x203A, 0x0153, 0x009D, 0x017E, 0x0178,
+];
+
 /// reference decoder for the same restricted ranges
 pub fn mbcs_decode(b: &[u8], codepage: u16) -> String {
     b.iter()
         .map(|x| match (codepage, *x) {
             (_, x) if x < 0x80 => x as char,
             (1252, x @ 0xA0..=0xFF) => char::from_u32(x as u32).unwrap(),
+            // windows-1252, 0x80..0x9F (the five unassigned bytes map to the C1 control of the same value)
+            (1252, x @ 0x80..=0x9F) => char::from_u32(CP1252_HIGH[(x - 0x80) as usize] as u32).unwrap(),
             (1251, x @ 0xC0..=0xFF) => char::from_u32(x as u32 - 0xC0 + 0x410).unwrap(),
             (932, x @ 0xA1..=0xDF) => char::from_u32(x as u32 - 0xA1 + 0xFF61).unwrap(),
             _ => '\u{FFFD}',
@@ -377,8 +384,10 @@ pub fn dir_stream(p: &VbaProjectDesc) -> Vec<u8> {
         s.extend(vrec(0x0047, &utf16(&m.name)));
         s.extend(vrec(0x001A, &mbcs(&m.stream_name, cp)));
         s.extend(vrec(0x0032, &utf16(&m.stream_name)));
-        s.extend(vrec(0x001C, b""));
-        s.extend(vrec(0x0048, b""));
+        // MODULEDOCSTRING: empty for most modules, a description for every third text offset
+        let doc = if m.text_offset % 3 == 1 { format!("about {}", m.stream_name) } else { String::new() };
+        s.extend(vrec(0x001C, &mbcs(&doc, cp)));
+        s.extend(vrec(0x0048, &utf16(&doc)));
         s.extend(vrec(0x0031, &m.text_offset.to_le_bytes()));
         s.extend(vrec(0x001E, &0u32.to_le_bytes()));
         s.extend(vrec(0x002C, &0xFFFFu16.to_le_bytes()));
